@@ -61,10 +61,12 @@ static void w_setup(int cfg, int thorough)
         for (i = 0; i < NS; i++) for (j = i; j < NS; j++) w_ops[w_nops++] = OP(O_SP_SWAP, i, j);       /* j == i: swapping a pointer with itself */
         for (w = 0; w < NW; w++) { for (i = 0; i < NS; i++) { w_ops[w_nops++] = OP(O_WP_FROM, w, i); w_ops[w_nops++] = OP(O_WP_LOCK, w, i); } w_ops[w_nops++] = OP(O_WP_RESET, w, 0); }
         w_ops[w_nops++] = OP(O_WP_SWAP, 0, 1); if (NW > 2) w_ops[w_nops++] = OP(O_WP_SWAP, 1, 2);
+        w_ops[w_nops++] = OP(O_WP_SWAP, 0, 0);
     } else {
         snprintf(cfgdesc, sizeof cfgdesc, "%d unique pointer objects: alloc with/without clear callback, alloc(0), release, swap, reset", NUP);
         for (i = 0; i < NUP; i++) { w_ops[w_nops++] = OP(O_UP_ALLOC, i, 0); w_ops[w_nops++] = OP(O_UP_ALLOC_NOCLR, i, 0); w_ops[w_nops++] = OP(O_UP_ALLOC0, i, 0); w_ops[w_nops++] = OP(O_UP_RELEASE, i, 0); w_ops[w_nops++] = OP(O_UP_RELEASE, i, 1);       /* b == 1: release(up, NULL, NULL) */ w_ops[w_nops++] = OP(O_UP_RESET, i, 0); w_ops[w_nops++] = OP(O_UP_ALLOC_HUGE, i, 0); }
         w_ops[w_nops++] = OP(O_UP_SWAP, 0, 1);
+        for (i = 0; i < NUP; i++) w_ops[w_nops++] = OP(O_UP_SWAP, i, i);      /* swapping a pointer with itself */
     }
 }
 static const char *w_config_desc(void) { return cfgdesc; }
@@ -240,8 +242,8 @@ static void w_apply(mc_op_t o)
         break;
     }
     case O_UP_SWAP:
-        SHIM_CALL(ab, cstl_unique_ptr_swap(&UP[0], &UP[1]));
-        k = m_up[0]; m_up[0] = m_up[1]; m_up[1] = k;
+        SHIM_CALL(ab, cstl_unique_ptr_swap(&UP[a], &UP[b]));
+        k = m_up[a]; m_up[a] = m_up[b]; m_up[b] = k;
         break;
     case O_UP_RESET: {
         int old = m_up[a];
@@ -368,7 +370,7 @@ static void w_opname(mc_op_t o, char *b, size_t n)
     case O_UP_ALLOC_NOCLR: snprintf(b, n, "unique_alloc(up%d,16,NULL)", OA(o)); break;
     case O_UP_ALLOC0: snprintf(b, n, "unique_alloc(up%d,0,clr)", OA(o)); break;
     case O_UP_RELEASE: snprintf(b, n, OB(o) ? "release(up%d,NULL,NULL)" : "release(up%d,&clr,&priv)", OA(o)); break;
-    case O_UP_SWAP: snprintf(b, n, "unique_swap(up0,up1)"); break;
+    case O_UP_SWAP: snprintf(b, n, "unique_swap(up%d,up%d)", OA(o), OB(o)); break;
     default: snprintf(b, n, "unique_reset(up%d)", OA(o)); break;
     }
 }
